@@ -84,21 +84,36 @@ def arm_dependence(v, crate, region, variant):
 def error_fn_rules(crate, path, loc_fn, res, rule):
     b = find(crate, path)
     if b is None:
-        res.add(rule, 1, [Finding(rule, path, "error function not found", "")])
+        res.add(rule, 1, [Finding(rule, path, "error function not found (undecided)", "", undecided=True)])
         return
+    # private helpers that build parts of the message are expanded; the functions the rules name stay calls
+    import inline
+    KEEP = (loc_fn, "errors::helpers::did_you_mean", "errors::json::value_kinds_description_json", "errors::json::value_description_with_kind_json",
+            "errors::query_params::value_kinds_description_query_param", "errors::query_params::value_description_with_kind_query_param")
+    idx = {x.path: x for x in crate.bodies}
+
+    def helper(callee):
+        return callee.kind == "Fn" and callee.impl_trait is None and callee.path not in KEEP and callee.path.startswith("errors::") and \
+            not any(inline._fn_of(bl["term"]) is not None and inline._fn_of(bl["term"]).get("path") == callee.path for bl in callee.blocks if bl["term"]["k"] == "call")
+    nb, _u = inline.inline_body(crate, b, idx, 0, helper)
+    if nb is not None:
+        b = nb
     v = View(b)
     fs = []
     ob = 0
-    info = None
+    infos = []
     for bb in sorted(v.reach):
         i2 = v.switch_info(bb)
         if i2 and i2["kind"] == "discr" and npath(i2.get("adt") or "") == "ErrorKind" and i2["place"]["l"] == 2:
-            info = i2
-            break
-    if info is None:
-        res.add(rule, 1, [fnd(rule, v, "the error function does not dispatch on the kind of error")])
+            infos.append(i2)
+    if not infos:
+        res.add(rule, 1, [und(rule, v, "the error function does not dispatch on the kind of error: message construction not extracted (undecided)")])
         return
-    arms = p_c13.arm_regions(v, info)
+    # (the kind may be matched more than once, e.g. once for the article and once for the text: an arm is all of it)
+    arms = {}
+    for i2 in infos:
+        for var_, reg_ in p_c13.arm_regions(v, i2).items():
+            arms.setdefault(var_, set()).update(reg_)
     for var in EK:
         ob += 1
         reg = arms.get(var)
@@ -214,6 +229,189 @@ def returned_pieces(rv, region):
     return outs
 
 
+def und(rule, v, what, bb=None, detail=""):
+    f = fnd(rule, v, what, bb, detail)
+    f.undecided = True
+    return f
+
+
+def renderings(rv, info, rec_path):
+    """{variant: [(conditions, pieces)]}: per arm of the switch on the pointer's variant, every path to the return with
+    the text it produces - the returned string's pieces, or what is appended to a `&mut String` parameter.
+    Pieces: ("lit", s) ("key",) ("index",) ("REC", variant of the prev it descends into) ("val", term)."""
+    import strterm
+    problems = []
+    out = {}
+    bufs = [i for i in range(1, rv.b.arg_count + 1) if rv.b.ltys(i).startswith("&mut std::string::String")]
+    buf = bufs[0] if bufs else None
+
+    def classify(p):
+        if p[0] != "val":
+            return p
+        x = strip_refs(p[1])
+        if x[0] == "call" and rv.callee(x[1]).fn is not None and call_name(rv, x) in ("std::string::ToString::to_string", "std::borrow::ToOwned::to_owned",
+                                                                                       "std::convert::From::from", "std::convert::Into::into") and x[3]:
+            x = strip_refs(x[3][0])
+        if x[0] == "field" and strip_refs(x[1]) == ("param", 1) and x[3] == "key":
+            return ("key",)
+        if x[0] == "field" and strip_refs(x[1]) == ("param", 1) and x[3] == "index":
+            return ("index",)
+        if x[0] == "call" and rv.callee(x[1]).fn is not None and rv.callee(x[1]).path == rec_path and x[3]:
+            a = strip_refs(x[3][0])
+            if a[0] == "field" and a[3] == "prev" and strip_refs(a[1]) == ("param", 1):
+                return ("REC", a[2])
+        return ("val", fmt(x))
+
+    def merge(ps):
+        o = []
+        for p in ps:
+            if p[0] == "lit" and o and o[-1][0] == "lit":
+                o[-1] = ("lit", o[-1][1] + p[1])
+            elif p == ("lit", ""):
+                continue
+            else:
+                o.append(p)
+        return tuple(o)
+
+    def is_buf(op):
+        t_ = strip_refs(canon(rv, rv.origin(op)))
+        return buf is not None and (t_ == ("param", buf) or (t_[0] == "deref" and strip_refs(t_[1]) == ("param", buf)))
+
+    def walk(bb, var, conds, pieces, benv, depth, seen):
+        if depth > 120 or bb in seen:
+            problems.append("loop inside a step")
+            return
+        seen = seen | {bb}
+        blk = rv.blocks[bb]
+        benv = dict(benv)
+        pieces = list(pieces)
+        for st in blk["stmts"]:
+            if st["k"] == "assign" and not st["place"]["p"]:
+                r0 = st["rv"]
+                if r0["k"] == "use" and r0["op"]["k"] == "const" and "bool" in r0["op"]:
+                    benv[st["place"]["l"]] = r0["op"]["bool"]
+                elif st["place"]["l"] in benv:
+                    benv.pop(st["place"]["l"])
+        tm = blk["term"]
+        k = tm["k"]
+        if k == "return":
+            if buf is None:
+                # value style: the returned string
+                al = set()
+                for x in rv.reach:
+                    pass
+                rt = None
+                for x in sorted(seen):
+                    b2 = rv.blocks[x]
+                    for st in b2["stmts"]:
+                        if st["k"] == "assign" and st["place"]["l"] == 0 and not st["place"]["p"]:
+                            rt = deep(rv, rv.origin_rv(st["rv"], x))
+                    if b2["term"]["k"] == "call" and b2["term"]["dest"]["l"] == 0 and not b2["term"]["dest"]["p"]:
+                        rt = deep(rv, rv.origin_call(x))
+                if rt is None:
+                    problems.append("no returned string on a path")
+                    return
+                ps = strterm.pieces(rv, rt)
+                if ps is None:
+                    problems.append("returned string not understood")
+                    return
+                pieces = [classify(p) for p in ps]
+            out.setdefault(var, []).append((tuple(conds), merge(pieces)))
+            return
+        if k == "switch":
+            i2 = rv.switch_info(bb)
+            if i2["kind"] == "discr" and i2["place"] is not None:
+                pl = strip_refs(canon(rv, rv.origin_place(i2["place"])))
+                what = "prev" if (pl[0] == "field" and pl[3] == "prev" and strip_refs(pl[1]) == ("param", 1)) else "other"
+                if what == "other":
+                    problems.append("a step branches on something else than its parent's variant")
+                    return
+                for lb, tgt in i2["edges"]:
+                    if tgt in rv.unreach:
+                        continue
+                    if lb is None:
+                        for o_ in (i2.get("others") or []):
+                            walk(tgt, var, conds + [(what, o_)], pieces, benv, depth + 1, seen)
+                    else:
+                        walk(tgt, var, conds + [(what, lb)], pieces, benv, depth + 1, seen)
+                return
+            if i2["kind"] == "bool":
+                d = tm["discr"]
+                if d["k"] in ("copy", "move") and not d["place"]["p"] and d["place"]["l"] in benv:
+                    walk(rv.edge_target(i2, benv[d["place"]["l"]]), var, conds, pieces, benv, depth + 1, seen)
+                    return
+                dt = strip_refs(canon(rv, rv.origin(d)))
+                neg = False
+                while dt[0] == "unop" and dt[1] == "Not":
+                    dt = strip_refs(dt[2])
+                    neg = not neg
+                if dt[0] == "call" and rv.callee(dt[1]).fn is not None and rv.callee(dt[1]).name == "is_origin" and dt[3]:
+                    a = strip_refs(dt[3][0])
+                    if a[0] == "field" and a[3] == "prev" and strip_refs(a[1]) == ("param", 1):
+                        walk(rv.edge_target(i2, not neg), var, conds + [("prev", "Origin")], pieces, benv, depth + 1, seen)
+                        walk(rv.edge_target(i2, neg), var, conds + [("prev", "Key")], pieces, benv, depth + 1, seen)
+                        walk(rv.edge_target(i2, neg), var, conds + [("prev", "Index")], pieces, benv, depth + 1, seen)
+                        return
+            problems.append("a step branches on something that is not understood")
+            return
+        if k == "call":
+            c = rv.callee(bb)
+            nm = call_name(rv, ("call", bb)) or ""
+            args = tm["args"]
+            if buf is not None and args and is_buf(args[0]) and c.fn is not None:
+                if nm == "std::string::String::push_str" and len(args) == 2:
+                    ps = strterm.pieces(rv, deep(rv, rv.origin(args[1])))
+                    if ps is None:
+                        problems.append("appended text not understood")
+                        return
+                    pieces += [classify(p) for p in ps]
+                elif nm == "std::string::String::push" and len(args) == 2:
+                    ct = strip_refs(canon(rv, rv.origin(args[1])))
+                    if ct[0] == "const" and isinstance(ct[2], int):
+                        pieces.append(("lit", chr(ct[2])))
+                    elif ct[0] == "const" and isinstance(ct[2], str):
+                        s_ = ct[2]
+                        pieces.append(("lit", s_[1:-1] if len(s_) >= 3 and s_[0] == "'" and s_[-1] == "'" else s_))
+                    else:
+                        pieces.append(("val", fmt(ct)))
+                elif nm in ("std::fmt::Write::write_fmt",) and len(args) == 2:
+                    ps = strterm.pieces(rv, deep(rv, rv.origin_call(bb)))
+                    if ps is None:
+                        problems.append("written text not understood")
+                        return
+                    pieces += [classify(p) for p in ps]
+                elif nm in ("std::fmt::Write::write_str",) and len(args) == 2:
+                    ps = strterm.pieces(rv, deep(rv, rv.origin(args[1])))
+                    if ps is None:
+                        problems.append("written text not understood")
+                        return
+                    pieces += [classify(p) for p in ps]
+                else:
+                    problems.append("the buffer is handed to %s" % nm)
+                    return
+            elif buf is not None and c.fn is not None and c.path == rec_path and len(args) == 2 and is_buf(args[1]):
+                a = strip_refs(canon(rv, rv.origin(args[0])))
+                if a[0] == "field" and a[3] == "prev" and strip_refs(a[1]) == ("param", 1):
+                    pieces.append(("REC", a[2]))
+                else:
+                    problems.append("the renderer recurses into something else than the parent")
+                    return
+            if tm.get("target") is None:
+                return
+            walk(tm["target"], var, conds, pieces, benv, depth + 1, seen)
+            return
+        for s in rv.succ[bb]:
+            walk(s, var, conds, pieces, benv, depth + 1, seen)
+
+    for var in ("Origin", "Key", "Index"):
+        tgt = rv.variant_target(info, var)
+        if tgt is None:
+            problems.append("no arm for %s" % var)
+            continue
+        walk(tgt, var, [], [], {}, 0, frozenset())
+    return out, problems
+
+
 def loc_rules(crate, base, query, res):
     rule = "C14.LOC"
     outer = find(crate, base)
@@ -245,7 +443,7 @@ def loc_rules(crate, base, query, res):
         recs = [x for x in n_only if v.callee(x) is not None and v.callee(x).fn is not None and v.callee(x).path == rec.path]
         if not has_article or len(recs) != 1 or strip_refs(deep(v, v.origin(v.blocks[recs[0]]["term"]["args"][0]))) != ("param", 1):
             fs.append(fnd(rule, v, "a non-origin location is not rendered as `<article> <path of this location>`"))
-    # rec
+    # rec: what one step renders, whatever the style (returned string built with + / format!, or appended to a buffer)
     rv = View(rec)
     info = None
     for bb in sorted(rv.reach):
@@ -254,86 +452,48 @@ def loc_rules(crate, base, query, res):
             info = i2
             break
     if not info:
-        fs.append(fnd(rule, rv, "rec does not dispatch on the pointer variant"))
+        fs.append(und(rule, rv, "the path renderer does not dispatch on the pointer variant: rendering not extracted (undecided)"))
     else:
-        arms = p_c13.arm_regions(rv, info)
-
-        def is_rec_of(p, variant):
-            return p[0] == "val" and p[1][0] == "call" and rv.callee(p[1][1]).path == rec.path and p[1][3] and _is_prev(p[1][3][0], variant)
-
-        def is_field(p, variant, name):
-            t = strip_refs(p[1]) if p[0] == "val" else None
-            return t is not None and t[0] == "field" and t[2] == variant and t[3] == name and strip_refs(t[1]) == ("param", 1)
-
-        # Origin => ""
-        oo = returned_pieces(rv, arms.get("Origin", set()))
-        if len(oo) != 1 or oo[0][1] != []:
-            fs.append(fnd(rule, rv, "the origin does not render as the empty path"))
-        # Key => <ancestors> "." <key>   (the ancestors first), however it is concatenated
-        kreg = arms.get("Key", set())
-        kout = returned_pieces(rv, kreg)
-
-        def full_key(ps):
-            return ps is not None and len(ps) == 3 and is_rec_of(ps[0], "Key") and ps[1] == ("lit", ".") and is_field(ps[2], "Key", "key")
-
-        def bare_key(ps):
-            return ps is not None and len(ps) == 1 and is_field(ps[0], "Key", "key")
-        if not query:
-            if not kout or not all(full_key(ps) for _, ps in kout):
-                fs.append(fnd(rule, rv, "a key step is not rendered as <path of the ancestors> . <key>"))
+        rend, problems = renderings(rv, info, rec.path)
+        if not problems and any(p[0] == "val" for lst in rend.values() for c, ps in lst for p in ps):
+            problems.append("a piece of the rendered text is not understood")
+        if problems:
+            fs.append(und(rule, rv, "rendering of a step not extracted (%s) (undecided)" % "; ".join(sorted(set(problems))[:2])))
         else:
-            fulls = [x for x, ps in kout if full_key(ps)]
-            bares = [x for x, ps in kout if bare_key(ps)]
-            if not fulls or len(fulls) + len(bares) != len(kout):
-                fs.append(fnd(rule, rv, "a key step is not rendered as <path of the ancestors> . <key>"))
-            # without the separator exactly when prev is the origin
-            ob += 1
-            okq = False
-            tests = []
-            for bb in sorted(kreg):
-                ms = rv.matches_source(bb)
-                i2 = rv.switch_info(bb)
-                if ms is not None:
-                    minfo, names = ms
-                    tt = rv.edge_target(i2, True)
-                    ft = rv.edge_target(i2, False)
-                    if names != {"Origin"} or tt is None or ft is None or npath(minfo.get("adt") or "") != "ValuePointerRef":
-                        continue
-                    pl = strip_refs(canon(rv, rv.origin_place(minfo["place"])))
-                    tests.append((tt, ft, pl))
-            # `match *prev { Origin => .., _ => .. }` / `if let Origin = prev` / `prev.is_origin()` forms
-            for bb in sorted(kreg):
-                i2 = rv.switch_info(bb)
-                if i2 and i2["kind"] == "discr" and npath(i2.get("adt") or "") == "ValuePointerRef" and i2["place"] is not None:
-                    pl = strip_refs(canon(rv, rv.origin_place(i2["place"])))
-                    if _is_prev(pl, "Key"):
-                        tt = rv.variant_target(i2, "Origin")
-                        fts = [t for lb, t in i2["edges"] if t != tt and t not in rv.unreach]
-                        if tt is not None and len(set(fts)) == 1:
-                            tests.append((tt, fts[0], pl))
-                if i2 and i2["kind"] == "bool" and i2.get("src") and i2["src"]["k"] == "callresult":
-                    cb = i2["src"]["bb"]
-                    if rv.callee(cb).fn is not None and rv.callee(cb).name == "is_origin":
-                        a0 = strip_refs(canon(rv, rv.origin(rv.blocks[cb]["term"]["args"][0])))
-                        if _is_prev(a0, "Key"):
-                            tests.append((rv.edge_target(i2, True), rv.edge_target(i2, False), a0))
-            for tt, ft, pl in tests:
-                if tt is None or ft is None or not _is_prev(pl, "Key"):
-                    continue
-                t_only = rv.reachable(tt) - rv.reachable(ft)
-                f_only = rv.reachable(ft) - rv.reachable(tt)
-                if bares and fulls and all(x in t_only for x in bares) and all(x in f_only for x in fulls):
+            def show(ps):
+                return "".join(x[1] if x[0] == "lit" else "<%s>" % x[0] for x in ps)
+            want = {"Origin": [()],
+                    "Index": [(("REC", "Index"), ("lit", "["), ("index",), ("lit", "]"))]}
+            for var, alts_ in want.items():
+                got = set(p for c, p in rend.get(var, []))
+                if got != set(alts_):
+                    fs.append(fnd(rule, rv, {"Origin": "the origin does not render as the empty path",
+                                             "Index": "an index step is not rendered as <path of the ancestors>[<index>]"}[var], None, " | ".join(show(p) for p in sorted(got))))
+            full = (("REC", "Key"), ("lit", "."), ("key",))
+            bare = (("key",),)
+            kgot = rend.get("Key", [])
+            if not query:
+                if set(p for c, p in kgot) != {full}:
+                    fs.append(fnd(rule, rv, "a key step is not rendered as <path of the ancestors> . <key>", None, " | ".join(show(p) for c, p in kgot)))
+            else:
+                ob += 1
+                if not kgot or any(p not in (full, bare) for c, p in kgot) or not any(p == full for c, p in kgot):
+                    fs.append(fnd(rule, rv, "a key step is not rendered as <path of the ancestors> . <key>", None, " | ".join(show(p) for c, p in kgot)))
+                else:
+                    # without the separator exactly when prev is the origin
                     okq = True
-            if not okq:
-                fs.append(fnd(rule, rv, "a top-level parameter is not rendered without the leading separator exactly when its parent is the origin"))
-        # Index => <ancestors> "[" <index> "]"
-        ireg = arms.get("Index", set())
-        iout = returned_pieces(rv, ireg)
-
-        def full_index(ps):
-            return ps is not None and len(ps) == 4 and is_rec_of(ps[0], "Index") and ps[1] == ("lit", "[") and is_field(ps[2], "Index", "index") and ps[3] == ("lit", "]")
-        if not iout or not all(full_index(ps) for _, ps in iout):
-            fs.append(fnd(rule, rv, "an index step is not rendered as <path of the ancestors>[<index>]"))
+                    seen_any = False
+                    for conds, p in kgot:
+                        pv = [lab for (what, lab) in conds if what == "prev"]
+                        if not pv:
+                            okq = False
+                            continue
+                        seen_any = True
+                        is_origin = pv[-1] == "Origin"
+                        if (p == bare) != is_origin:
+                            okq = False
+                    if not (okq and seen_any):
+                        fs.append(fnd(rule, rv, "a top-level parameter is not rendered without the leading separator exactly when its parent is the origin"))
     res.add(rule, ob, fs)
 
 
